@@ -146,10 +146,12 @@ Definition step_op (cfgv : list Z) (st : cstate) (now : Z) (o : op) : list Z * l
   | OOvEnter ovr => ([], cfgv, ov_enter st ovr, now)
   | OOvExit => ([], cfgv, ov_exit st, now)
   | OSetCfg slot v =>
-    (* set_config stores the value, then validate_config: only 2006 / 2013 / 2020 are editions (ConfigError otherwise;
-       the rejected value stays in the configuration) *)
-    ((if (slot =? 6) && negb ((v =? 2006) || (v =? 2013) || (v =? 2020)) then [2; err_code EConfig] else []),
-     set_nth cfgv (Z.to_nat slot) v, st, now)
+    (* set_config stores the value, then validate_config looks at the whole configuration: only 2006 / 2013 / 2020 are editions
+       (ConfigError otherwise; the rejected value stays in the configuration, so every later change is refused as well until the
+       edition is set to a valid one) *)
+    let cfgv' := set_nth cfgv (Z.to_nat slot) v in
+    let e := nth 6 cfgv' 0 in
+    ((if negb ((e =? 2006) || (e =? 2013) || (e =? 2020)) then [2; err_code EConfig] else []), cfgv', st, now)
   | OAdvance dt => ([], cfgv, st, now + dt)
   | OCallSendFault c code =>
     (* the connection's send() raises an error of class `code` after the frame has been written: the call ends there, with
